@@ -46,6 +46,12 @@ impl E {
                 }
             }
             E::Un(op, a) => format!("({}{})", op, a.src(hoist, counter)),
+            E::Bin("|length", a, b) => {
+                let l = a.src(hoist, counter);
+                // the right operand is a dummy literal (keeps the occurrence numbering simple)
+                let r = b.src(hoist, counter);
+                format!("(({})|length + {})", l, r)
+            }
             E::Bin(op, a, b) => {
                 let l = a.src(hoist, counter);
                 let r = b.src(hoist, counter);
@@ -153,6 +159,37 @@ fn map_displays() -> Vec<E> {
             v.push(E::Map2(lit(k1), lit(1), lit(k2), lit(2)));
             v.push(E::Bin("==", Box::new(E::Map2(lit(k1), lit(1), lit(k2), lit(2))), Box::new(E::Map(lit(k1), lit(2)))));
             v.push(E::List(vec![E::Map2(lit(k1), lit(5), lit(k2), lit(8))]));
+        }
+    }
+    v
+}
+
+/// displays whose items are themselves operator expressions over literals (the folder has to
+/// evaluate every item; an item that fails must make the display fail like it does at run time)
+fn displays_of_operations(pool: &[usize], core: &[usize]) -> Vec<E> {
+    let lit = |i: usize| Box::new(E::Lit(i));
+    let mut v = vec![];
+    for &a in pool {
+        for un in ["-", "not "] {
+            for &b in core {
+                v.push(E::List(vec![E::Un(un, lit(a)), E::Lit(b)]));
+                v.push(E::List(vec![E::Lit(b), E::Un(un, lit(a))]));
+                v.push(E::Tuple(vec![E::Un(un, lit(a)), E::Lit(b)]));
+                v.push(E::Map(lit(b), Box::new(E::Un(un, lit(a)))));
+                v.push(E::Map(Box::new(E::Un(un, lit(a))), lit(b)));
+            }
+            v.push(E::List(vec![E::Un(un, lit(a))]));
+            v.push(E::DictKw(Box::new(E::Un(un, lit(a)))));
+            v.push(E::Bin("|length", Box::new(E::List(vec![E::Un(un, lit(a)), E::Lit(1)])), lit(0)));
+        }
+    }
+    for &a in core {
+        for &b in core {
+            for op in ["+", "//", "~", "in", "<", "**"] {
+                v.push(E::List(vec![E::Bin(op, lit(a), lit(b)), E::Lit(1)]));
+                v.push(E::Tuple(vec![E::Lit(1), E::Bin(op, lit(a), lit(b))]));
+                v.push(E::Map(lit(5), Box::new(E::Bin(op, lit(a), lit(b)))));
+            }
         }
     }
     v
@@ -327,6 +364,7 @@ pub fn main(args: Args) -> i32 {
     let core_pool: Vec<usize> = (0..args.tier.pick(8usize, 11usize)).collect();
     let mut exprs = depth1(&full_pool, OPS_ALL);
     exprs.extend(map_displays());
+    exprs.extend(displays_of_operations(&full_pool, &core_pool));
     let d1 = exprs.len();
     exprs.extend(depth2(&core_pool, args.tier.pick(OPS_CORE, OPS_ALL)));
     let before = exprs.len();
@@ -348,7 +386,7 @@ pub fn main(args: Args) -> i32 {
             level: "exploration",
             tier: args.tier,
             seed: args.seed,
-            rule: format!("all depth-1 expressions over a 16-literal pool x 18 binary operators + unary -/not + list/tuple/map displays (two-entry maps over all pairs of 10 hashable literals, equal keys included) + literal keyword arguments, and all depth-2 expressions ((a o b) o c, a o (b o c), 7 comparison chains, nested displays) over the first {} literals x {} operators; for each expression every non-empty subset of its literal occurrences is hoisted into context variables bound to the value the lexer produces for that literal, and Ok/Err status plus kind:text of the result must equal the all-literal (constant-folded) form; failing constant expressions must load and stay silent in dead code. distinct non-trivial = distinct expressions that evaluate successfully", core_pool.len(), args.tier.pick(OPS_CORE, OPS_ALL).len()),
+            rule: format!("all depth-1 expressions over a 16-literal pool x 18 binary operators + unary -/not + list/tuple/map displays (two-entry maps over all pairs of 10 hashable literals, equal keys included) + list/tuple/map displays and keyword arguments whose items are unary or binary operations over literals + literal keyword arguments, and all depth-2 expressions ((a o b) o c, a o (b o c), 7 comparison chains, nested displays) over the first {} literals x {} operators; for each expression every non-empty subset of its literal occurrences is hoisted into context variables bound to the value the lexer produces for that literal, and Ok/Err status plus kind:text of the result must equal the all-literal (constant-folded) form; failing constant expressions must load and stay silent in dead code. distinct non-trivial = distinct expressions that evaluate successfully", core_pool.len(), args.tier.pick(OPS_CORE, OPS_ALL).len()),
             exhaustive: true,
             bound: json!({"literals": LITS, "ops": OPS_ALL, "depth2_pool": core_pool.len()}),
             assumptions: vec!["sequence repetition by counts >= 2^31 is excluded (lazy, unprintable); its crash behaviour belongs to C01".into()],
